@@ -6,6 +6,8 @@ Model of the three "views" of an integer variable (property C20):
 * `ODVariable.encode_desc` / `decode_desc`, `Variable.desc`
 * `ODVariable.encode_phys` / `decode_phys`, `Variable.phys`
 * `Variable.raw` (getter and setter) over an abstract store `get_data` / `set_data`
+* `Variable.read(fmt)` / `Variable.write(value, fmt)` (the method spellings of the three views) and
+  `Variable.data`
 
 Python integers are unbounded and `&`, `|`, `~`, `<<`, `>>` act on the infinite two's complement
 representation; `Int` with the bit operations below is that.  Physical values are rationals
@@ -254,6 +256,167 @@ def getPhys {σ : Type} (od : OdVar) (st : Store σ) (s : σ) : Option Rat :=
 /-- `var.phys = v` -/
 def setPhys {σ : Type} (od : OdVar) (st : Store σ) (s : σ) (v : Rat) : Option σ :=
   if scaled od.dtype then (encodePhys od.factor v).bind (writeRaw od.dtype st s) else none
+
+/-! ### the method spellings: `Variable.read(fmt)`, `Variable.write(value, fmt)`, `.data` -/
+
+/-- a Python value handed to `write` / a setter, or returned by `read` / a getter -/
+inductive PyVal where
+  | int (i : Int)
+  | num (q : Rat)          -- a float, or the int/float product of `decode_phys`, as a rational
+  | str (s : Name)
+  | bytes (b : Bytes)
+  | none
+deriving DecidableEq
+
+/-- `"raw"`, `"phys"`, `"desc"` as code points -/
+def fmtRaw : Name := [114, 97, 119]
+def fmtPhys : Name := [112, 104, 121, 115]
+def fmtDesc : Name := [100, 101, 115, 99]
+
+/-- the three attribute views -/
+inductive ViewK where
+  | raw | phys | desc
+deriving DecidableEq, Repr
+
+/-- the `fmt` string naming a view -/
+def viewFmt : ViewK → Name
+  | .raw => fmtRaw
+  | .phys => fmtPhys
+  | .desc => fmtDesc
+
+/-- the `if fmt == "raw": … elif fmt == "phys": … elif fmt == "desc": …` chain of `read` / `write` -/
+def fmtView (fmt : Name) : Option ViewK :=
+  if fmt = fmtRaw then some .raw
+  else if fmt = fmtPhys then some .phys
+  else if fmt = fmtDesc then some .desc
+  else none
+
+/-- `int(x)` of a Python float: truncation toward zero -/
+def pyTrunc (q : Rat) : Int := Int.tdiv q.num q.den
+
+/-- `var.raw = value` for a Python value: `encode_raw` passes `bytes` through as they are and
+    applies `int(value)` on an integer type (`int(None)` raises; text is not modelled: the
+    harness only hands over text that is no integer literal, for which `int` raises) -/
+def setRawVal {σ : Type} (od : OdVar) (st : Store σ) (s : σ) (x : PyVal) : Option σ :=
+  match x with
+  | .int i => writeRaw od.dtype st s i
+  | .num q => writeRaw od.dtype st s (pyTrunc q)
+  | .bytes b => st.set s b
+  | _ => none
+
+/-- `var.phys = value`: a number is divided by the factor; text, bytes and `None` raise `TypeError` -/
+def setPhysVal {σ : Type} (od : OdVar) (st : Store σ) (s : σ) (x : PyVal) : Option σ :=
+  match x with
+  | .int i => setPhys od st s (i : Rat)
+  | .num q => setPhys od st s q
+  | _ => none
+
+/-- `var.desc = value`: only a `str` can equal a description (anything else ends in `ValueError`) -/
+def setDescVal {σ : Type} (od : OdVar) (st : Store σ) (s : σ) (x : PyVal) : Option σ :=
+  match x with
+  | .str d => setDesc od st s d
+  | _ => none
+
+/-- the attribute getters `var.raw` / `var.phys` / `var.desc` as Python values -/
+def getView {σ : Type} (od : OdVar) (st : Store σ) (s : σ) (v : ViewK) : Option PyVal :=
+  match v with
+  | .raw => (readRaw od.dtype st s).map .int
+  | .phys => (getPhys od st s).map .num
+  | .desc => (getDesc od st s).map .str
+
+/-- the attribute setters `var.raw = x` / `var.phys = x` / `var.desc = x` -/
+def setView {σ : Type} (od : OdVar) (st : Store σ) (s : σ) (v : ViewK) (x : PyVal) : Option σ :=
+  match v with
+  | .raw => setRawVal od st s x
+  | .phys => setPhysVal od st s x
+  | .desc => setDescVal od st s x
+
+/-- `Variable.read(fmt="raw")`: `return self.raw` / `self.phys` / `self.desc`; any other `fmt`
+    falls off the end of the chain and returns `None` (outer `none` = the getter raised) -/
+def readFmt {σ : Type} (od : OdVar) (st : Store σ) (s : σ) (fmt : Name := fmtRaw) : Option PyVal :=
+  if fmt = fmtRaw then (readRaw od.dtype st s).map .int
+  else if fmt = fmtPhys then (getPhys od st s).map .num
+  else if fmt = fmtDesc then (getDesc od st s).map .str
+  else some .none
+
+/-- `Variable.write(value, fmt="raw")`: `self.raw = value` / `self.phys = value` /
+    `self.desc = value`; any other `fmt` does nothing (`none` = the setter raised) -/
+def writeFmt {σ : Type} (od : OdVar) (st : Store σ) (s : σ) (value : PyVal) (fmt : Name := fmtRaw) :
+    Option σ :=
+  if fmt = fmtRaw then setRawVal od st s value
+  else if fmt = fmtPhys then setPhysVal od st s value
+  else if fmt = fmtDesc then setDescVal od st s value
+  else some s
+
+/-- `var.data` (property) = `var.get_data()` -/
+def getData {σ : Type} (st : Store σ) (s : σ) : Option Bytes := st.get s
+
+/-- `var.data = b` (property) = `var.set_data(b)` -/
+def setData {σ : Type} (st : Store σ) (s : σ) (b : Bytes) : Option σ := st.set s b
+
+/-- one access to a variable, with its spelling -/
+inductive Access where
+  | getP (v : ViewK)                       -- `var.raw`, `var.phys`, `var.desc`
+  | getM (fmt : Option Name)               -- `var.read(fmt)`; `none` = `var.read()`
+  | setP (v : ViewK) (x : PyVal)           -- `var.raw = x`, …
+  | setM (x : PyVal) (fmt : Option Name)   -- `var.write(x, fmt)`; `none` = `var.write(x)`
+  | getData                                -- `var.data`, `var.get_data()`
+  | setData (b : Bytes)                    -- `var.data = b`, `var.set_data(b)`
+  | getBits (k : Key)                      -- `var.bits[k]`
+  | setBits (k : Key) (v : Int)            -- `var.bits[k] = v`
+
+/-- outcome of a statement that stores: the new state and `None`, or the old state and an error -/
+def setOut {σ : Type} (s : σ) (o : Option σ) : σ × Option PyVal :=
+  match o with
+  | some s' => (s', some .none)
+  | none => (s, none)
+
+/-- `read` with or without the `fmt` argument -/
+def readOpt {σ : Type} (od : OdVar) (st : Store σ) (s : σ) (fmt : Option Name) : Option PyVal :=
+  match fmt with
+  | some f => readFmt od st s f
+  | none => readFmt od st s
+
+/-- `write` with or without the `fmt` argument -/
+def writeOpt {σ : Type} (od : OdVar) (st : Store σ) (s : σ) (x : PyVal) (fmt : Option Name) : Option σ :=
+  match fmt with
+  | some f => writeFmt od st s x f
+  | none => writeFmt od st s x
+
+def accessStep {σ : Type} (od : OdVar) (st : Store σ) (s : σ) (a : Access) : σ × Option PyVal :=
+  match a with
+  | .getP v => (s, getView od st s v)
+  | .getM fmt => (s, readOpt od st s fmt)
+  | .setP v x => setOut s (setView od st s v x)
+  | .setM x fmt => setOut s (writeOpt od st s x fmt)
+  | .getData => (s, (getData st s).map .bytes)
+  | .setData b => setOut s (setData st s b)
+  | .getBits k => (s, (getBits od st s k).map .int)
+  | .setBits k v => setOut s (setBits od st s k v)
+
+/-- a history of accesses on one variable object -/
+def accessRun {σ : Type} (od : OdVar) (st : Store σ) (s : σ) : List Access → σ × List (Option PyVal)
+  | [] => (s, [])
+  | a :: r =>
+    let (s', o) := accessStep od st s a
+    let (s'', os) := accessRun od st s' r
+    (s'', o :: os)
+
+/-- the same access spelt with the attribute instead of the method (an unknown `fmt` has no
+    attribute spelling and stays) -/
+def Access.toProp (a : Access) : Access :=
+  match a with
+  | .getM none => .getP .raw
+  | .getM (some f) =>
+    (match fmtView f with
+     | some v => .getP v
+     | none => .getM (some f))
+  | .setM x none => .setP .raw x
+  | .setM x (some f) =>
+    (match fmtView f with
+     | some v => .setP v x
+     | none => .setM x (some f))
+  | a => a
 
 /-! ### one `Bits` object used for several accesses (`b = var.bits; b[k] = v; b[k2] …`) -/
 
